@@ -27,6 +27,9 @@ func runC04(c *Ctx, r *Report) {
 	c04Errors(c, r)
 	c04DropCR(c, r)
 	c04Bounds(c, r)
+	// (e) the hand-over of line slices to the consumer is stable too: a batch that was sent is never appended to again
+	borrow(c, r, func(c *Ctx, r *Report) { c01BatcherLoops(c, r, "C01-b") }, "C01-b/fresh-batch", "C04-e/fresh-batch", nil, true)
+	borrow(c, r, func(c *Ctx, r *Report) { c01BatcherLoops(c, r, "C01-b") }, "C01-b/remake-after-send", "C04-e/remake-after-send", nil, true)
 }
 
 // bufFieldOf: scanners are the struct types of the package that have a []byte
